@@ -1121,10 +1121,29 @@ LEVEL_TEXT = ('Lean 4 theorems over a model of utils.limit_iterable (counting ge
               'registry), and no payload iterates the result of a lambda it calls except through limit_iterable '
               '(producers_limited). Tie and oracle: endless instrumented sources into every registered '
               'function and position in watchdogged, address-space-limited worker processes; result shapes around the limit; '
-              'quota boundaries and 10**10 repetitions against the model.')
-LEVEL_NOTE = ('trusted: Lean kernel; hand-written models Yaql/Model/Limits.lean and Convert.lean; the translator '
-              '(harness/gens/limitfacts.py, sizes.py); sys.getsizeof. quota_flow is about an abstract first-order evaluator, not '
-              'the yaql evaluator. The two defects this check found (nested-iterators-unlimited, frozendict-unmeasured) are '
+              'quota boundaries and 10**10 repetitions against the model. '
+              'OVER THE EVALUATOR (C08Eval, C08EvalMono, C08EvalOff): evalL = the C04 reference interpreter Eval.eval with '
+              'limit_memory_usage at every parameter binding and every call result and limit_iterable at every Iterable() '
+              'parameter, in list() and in the finaliser, placed where runner.call / SmartType.convert / the payloads apply them. '
+              'Proved for ALL expressions, contexts, documents, fuel, N, Q and size constants: without limits evalL IS Eval.eval '
+              '(evalL_off, runL_off); a result under any limits is the reference result (evalL_refines, runL_refines); raising N or '
+              'Q never turns a value into a failure and never changes it (limits_monotone, via the simulation runL_rel: a lazy '
+              'sequence under smaller limits is a prefix that ends in a limit exception); Quota / TooLarge are the only new outcomes '
+              '(new_outcomes); the result of every call node and every value bound by let / a def-ined function / #operator_. / an '
+              'Iterable() parameter has passed the quota check (quota_flow_*); what gets through an Iterable() parameter shows at '
+              'most N elements (limit_flow_iter; limitLazy = Limits.run: limitLazy_run) and a returned value holds no collection '
+              'longer than N at any depth (limit_flow_result). Tie: generated C04 programs over inflated documents run on the real '
+              'engine with limitIterators = N and memoryQuota = Q drawn around the lengths / sizes each program really produces, '
+              'outcome class and value compared with the compiled evalL; oracle on the real run alone (payloads wrapped at '
+              'registration time): an over-long collection in the result, or a data value larger than Q passed to / returned by a '
+              'library function in a successful run.')
+LEVEL_NOTE = ('trusted: Lean kernel; hand-written models Yaql/Model/Limits.lean, Convert.lean, Eval.lean (C04) and EvalLimits.lean; '
+              'the translator (harness/gens/limitfacts.py, sizes.py, evalsizes.py); sys.getsizeof. C08.quota_flow is about an '
+              'abstract first-order evaluator; the C08Eval theorems are about the instrumented C04 interpreter: its fragment and '
+              'out-of-domain cases, shallow sizes, non-data objects only bounded (objMin..objMax: quotas below objMax are not '
+              'exercised), mixed-key dicts / floats / sets "no prediction" under a quota, a 48-byte slack for the plain dict '
+              'toDict returns; where Eval orders two ordinary exceptions differently from the code (dict(items), the finaliser, '
+              'unpack() of a raising source) evalL keeps Eval\'s order. The two defects this check found (nested-iterators-unlimited, frozendict-unmeasured) are '
               'repaired in /repo (fb14b78, ccc0ee2); reverting either gives a VIOLATION with a concrete failing input.')
 TECHNIQUE = ('Lean 4 proof (invariant of the counting generator, structural induction over values, integer arithmetic) + '
              'generated registry/use-fact table proved by decide +kernel + dynamic sweep of the whole registry')
